@@ -145,30 +145,19 @@ Proof. unfold mb_p. ring. Qed.
 Lemma mb_kinetic m kT xi : 0 < m -> 0 <= kT -> mb_p m kT xi * mb_p m kT xi / (2 * m) = xi * xi * kT / 2.
 Proof. intros Hm Hk. rewrite mb_variance by nra. field. lra. Qed.
 
-Lemma forced_temperature kT ke dof : 0 <= kT -> 0 <= ke -> 0 < dof ->
-  2 * ke_after_forced kT ke dof / dof = kT * ((2 * ke / dof) / real_temp ke dof).
+Lemma forced_temperature_exact kT ke dof : 0 <= kT -> 0 < ke -> 0 < dof -> 2 * ke_after_forced kT ke dof / dof = kT.
 Proof.
   intros Hk He Hd. unfold ke_after_forced, forced_scale.
-  assert (0 < real_temp ke dof) as Hr.
-  { unfold real_temp. assert (0 <= 2 * ke / dof) by (apply Rmult_le_pos; [lra|left; now apply Rinv_0_lt_compat]). lra. }
+  assert (0 < real_temp ke dof) as Hr by (unfold real_temp; apply Rmult_lt_0_compat; [lra|now apply Rinv_0_lt_compat]).
+  destruct (Rlt_dec 0 (real_temp ke dof)) as [_|N]; [|contradiction].
   rewrite sqrt_sqrt by (apply Rmult_le_pos; [lra|left; now apply Rinv_0_lt_compat]).
-  field. split; lra.
+  unfold real_temp in *. field. split; lra.
 Qed.
-(* kinetic temperature after forcing: kT (1 - eps) with 0 <= eps <= 1e-15 / (2 KE / dof) *)
-Lemma forced_temperature_close kT ke dof : 0 <= kT -> 0 < ke -> 0 < dof ->
-  kT * (1 - / 1000000000000000 / (2 * ke / dof)) <= 2 * ke_after_forced kT ke dof / dof <= kT.
+(* nothing to rescale (every draw zero, or every atom constrained): the momenta are left alone - no division by zero *)
+Lemma forced_scale_zero kT dof : forced_scale kT 0 dof = 1.
 Proof.
-  intros Hk He Hd. rewrite forced_temperature by lra.
-  assert (0 < 2 * ke / dof) as Ht by (apply Rmult_lt_0_compat; [lra|now apply Rinv_0_lt_compat]).
-  set (t := 2 * ke / dof) in *. unfold real_temp. fold t. set (e := / 1000000000000000).
-  assert (0 < e) by (unfold e; lra).
-  assert (t / (t + e) <= 1) as U.
-  { apply Rmult_le_reg_r with (r := t + e); [lra|]. unfold Rdiv. rewrite Rmult_assoc, Rinv_l by lra. lra. }
-  assert (1 - e / t <= t / (t + e)) as L.
-  { apply Rmult_le_reg_r with (r := t * (t + e)); [nra|].
-    replace ((1 - e / t) * (t * (t + e))) with ((t - e) * (t + e)) by (field; lra).
-    replace (t / (t + e) * (t * (t + e))) with (t * t) by (field; lra). nra. }
-  split; nra.
+  unfold forced_scale, real_temp. destruct (Rlt_dec 0 (2 * 0 / dof)) as [H|_]; [|reflexivity].
+  exfalso. unfold Rdiv in H. rewrite Rmult_0_r, Rmult_0_l in H. lra.
 Qed.
 
 (* ---------------- the kinetic energy entering the acceptance test is that of the freshly drawn momenta *)
